@@ -53,6 +53,9 @@ Clauses ==
     [] c.op = "drop" ->
          IF c.raised # "" THEN <<"C18.drop.raised">>
          ELSE Fail(c.feat_out = SelectSeq(c.cols_in, LAMBDA x : x[3] = 0), "C18.drop_samples_df") \o Fail(c.pre = c.post, "C15.drop_samples_df.input_modified")
+    [] c.op = "rename" ->
+         IF c.raised # "" THEN <<"C04.rename_extrema_df.raised", "C09.rename_extrema_df.raised">>
+         ELSE Fail(RenameOK(c.cols_in, c.centre, c.rs, c.cols_out), "C04.rename_extrema_df") \o Fail(RenameOK(c.cols_in, c.centre, c.rs, c.cols_out), "C09.rename_extrema_df")
     [] OTHER ->    \* flatten
          IF c.raised # "" THEN <<"C18.flatten.raised">>
          ELSE Fail(c.out = Concat([k \in 1 .. Len(c.tables) |-> [j \in 1 .. Len(c.tables[k]) |-> <<c.tables[k][j], c.labels[k]>>]]), "C18.flatten_dfs")
